@@ -87,4 +87,397 @@ theorem lowerByte_idem (c : Nat) : lowerByte (lowerByte c) = lowerByte c := by
 theorem lower_idem (b : Bytes) : lower (lower b) = lower b := by
   simp [lower, lowerByte_idem]
 
+/-! ### C14: the builder fold, name by name -/
+
+/-- the entry stored under `n`: `none` = no entry, `some vs` = an entry with values `vs` -/
+def entry (h : Headers) (n : Bytes) : Option (List Bytes) := if h.contains n then some (h.values n) else none
+
+theorem entry_nil (n : Bytes) : entry [] n = none := by simp [entry, Headers.contains]
+
+theorem entry_insert (h : Headers) (k n : Bytes) (vs : List Bytes) :
+    entry (h.insert k vs) n = if k = n then some vs else entry h n := by
+  unfold entry
+  rw [contains_insert, values_insert]
+  by_cases hk : k = n <;> simp [hk]
+
+theorem values_eq_entry (h : Headers) (n : Bytes) : h.values n = (entry h n).getD [] := by
+  unfold entry
+  by_cases hc : h.contains n = true
+  · simp [hc]
+  · have hc' : h.contains n = false := by simpa using hc
+    simp [hc', values_of_not_contains h n hc']
+
+/-- what one builder call does to the entry of header `n` -/
+def stepName (n : Bytes) (st : Option (List Bytes)) (c : Call) : Option (List Bytes) :=
+  match explicitFor n c with
+  | some vs => some vs
+  | none =>
+    match bodyOf c with
+    | some (k, _) => if n = ctName then (match st with | none => some [k.mime] | some x => some x) else st
+    | none => st
+
+theorem entry_copyContentType (h : Headers) (m n : Bytes) :
+    entry (copyContentType h m) n =
+      if n = ctName then (match entry h n with | none => some [m] | some x => some x) else entry h n := by
+  unfold copyContentType
+  by_cases hc : h.contains ctName = true
+  · simp only [hc, if_true]
+    by_cases hn : n = ctName
+    · subst hn; simp [entry, hc]
+    · simp [hn]
+  · have hc' : h.contains ctName = false := by simpa using hc
+    simp only [hc', Bool.false_eq_true, if_false, entry_insert]
+    by_cases hn : n = ctName
+    · subst hn; simp [entry, hc']
+    · have : ¬ ctName = n := fun h => hn h.symm
+      simp [hn, this]
+
+theorem entry_applyCall (r r' : Req) (c : Call) (n : Bytes) (h : applyCall r c = some r') :
+    entry r'.headers n = stepName n (entry r.headers n) c := by
+  cases c with
+  | header k vs =>
+    simp only [applyCall] at h
+    split at h
+    · injection h with h; subst h
+      simp only [entry_insert, stepName, explicitFor]
+      by_cases hk : lower k = n <;> simp [hk, bodyOf]
+    · cases h
+  | contentType d =>
+    simp only [applyCall] at h
+    injection h with h; subst h
+    simp only [entry_insert, stepName, explicitFor]
+    by_cases hk : ctName = n <;> simp [hk, bodyOf]
+  | body k b =>
+    simp only [applyCall, setBody] at h
+    injection h with h; subst h
+    simp only [entry_copyContentType, stepName, explicitFor, bodyOf]
+  | bodyForm ps =>
+    simp only [applyCall, setBody] at h
+    injection h with h; subst h
+    simp only [entry_copyContentType, stepName, explicitFor, bodyOf]
+  | query u =>
+    simp only [applyCall] at h
+    injection h with h; subst h
+    simp [stepName, explicitFor, bodyOf]
+
+
+theorem keysLower_insert (h : Headers) (k : Bytes) (vs : List Bytes) (hl : KeysLower h) (hk : lower k = k) :
+    KeysLower (h.insert k vs) := by
+  intro e he
+  unfold Headers.insert at he
+  rw [List.mem_append] at he
+  rcases he with he | he
+  · exact hl e (List.mem_filter.mp he).1
+  · simp at he; subst he; exact hk
+
+theorem keysLower_append (h : Headers) (k : Bytes) (vs : List Bytes) (hl : KeysLower h) (hk : lower k = k) :
+    KeysLower (h.append k vs) := by
+  unfold Headers.append
+  split <;> exact keysLower_insert _ _ _ hl hk
+
+theorem lower_ctName : lower ctName = ctName := by decide
+
+theorem keysLower_copyContentType (h : Headers) (m : Bytes) (hl : KeysLower h) :
+    KeysLower (copyContentType h m) := by
+  unfold copyContentType
+  split
+  · exact hl
+  · exact keysLower_insert _ _ _ hl lower_ctName
+
+theorem keysLower_applyCall (r r' : Req) (c : Call) (h : applyCall r c = some r') (hl : KeysLower r.headers) :
+    KeysLower r'.headers := by
+  cases c with
+  | header k vs =>
+    simp only [applyCall] at h
+    split at h
+    · injection h with h; subst h; exact keysLower_insert _ _ _ hl (lower_idem k)
+    · cases h
+  | contentType d =>
+    simp only [applyCall] at h; injection h with h; subst h
+    exact keysLower_insert _ _ _ hl lower_ctName
+  | body k b =>
+    simp only [applyCall, setBody] at h; injection h with h; subst h
+    exact keysLower_copyContentType _ _ hl
+  | bodyForm ps =>
+    simp only [applyCall, setBody] at h; injection h with h; subst h
+    exact keysLower_copyContentType _ _ hl
+  | query u =>
+    simp only [applyCall] at h; injection h with h; subst h; exact hl
+
+/-- everything the fold does, field by field -/
+theorem foldCalls_spec (cs : List Call) : ∀ (r r' : Req), foldCalls r cs = some r' →
+    r'.method = r.method ∧
+    r'.url = (lastQuery cs).getD r.url ∧
+    r'.body = ((lastBody cs).map (·.2)).getD r.body ∧
+    (KeysLower r.headers → KeysLower r'.headers) ∧
+    ∀ n, entry r'.headers n = cs.foldl (stepName n) (entry r.headers n) := by
+  induction cs with
+  | nil =>
+    intro r r' h
+    simp only [foldCalls] at h; injection h with h; subst h
+    simp [lastQuery, lastBody]
+  | cons c cs ih =>
+    intro r r' h
+    simp only [foldCalls] at h
+    cases h1 : applyCall r c with
+    | none => simp [h1] at h
+    | some r1 =>
+      simp only [h1] at h
+      obtain ⟨hm, hu, hb, hk, he⟩ := ih r1 r' h
+      refine ⟨?_, ?_, ?_, ?_, ?_⟩
+      · rw [hm]; cases c <;> simp only [applyCall, setBody] at h1 <;> (try split at h1) <;>
+          (try cases h1) <;> rfl
+      · rw [hu]; simp only [lastQuery]
+        cases hq : lastQuery cs with
+        | some u => simp
+        | none =>
+          cases c <;> simp only [applyCall, setBody] at h1 <;> (try split at h1) <;>
+            (try cases h1) <;> simp
+      · rw [hb]; simp only [lastBody]
+        cases hq : lastBody cs with
+        | some u => simp
+        | none =>
+          cases c <;> simp only [applyCall, setBody] at h1 <;> (try split at h1) <;>
+            (try cases h1) <;> simp [bodyOf]
+      · intro hl; exact hk (keysLower_applyCall r r1 c h1 hl)
+      · intro n; rw [he n, entry_applyCall r r1 c n h1]; rfl
+
+
+/-- the content type the *code* ends up with when nothing sets it explicitly: that of the first body -/
+def firstMime (cs : List Call) : Option (List Bytes) := (firstBody cs).map (fun p => [p.1.mime])
+
+/-- closed form of the per-name fold: last explicit setting, else (content-type only) what was there or the first body -/
+theorem foldl_stepName (n : Bytes) (cs : List Call) : ∀ st : Option (List Bytes),
+    cs.foldl (stepName n) st =
+      match lastExplicit n cs with
+      | some vs => some vs
+      | none => if n = ctName then (match st with | some x => some x | none => firstMime cs) else st := by
+  induction cs with
+  | nil => intro st; cases st <;> simp [lastExplicit, firstMime, firstBody]
+  | cons c cs ih =>
+    intro st
+    simp only [List.foldl_cons, ih, lastExplicit]
+    cases hl : lastExplicit n cs with
+    | some vs => rfl
+    | none =>
+      simp only [stepName, firstMime, firstBody]
+      cases he : explicitFor n c with
+      | some vs => by_cases hn : n = ctName <;> simp [hn]
+      | none =>
+        cases hb : bodyOf c with
+        | none => simp
+        | some kb =>
+          obtain ⟨k, b⟩ := kb
+          by_cases hn : n = ctName
+          · cases st <;> simp [hn]
+          · simp [hn]
+
+theorem lastBody_none_iff (cs : List Call) : lastBody cs = none ↔ firstBody cs = none := by
+  induction cs with
+  | nil => simp [lastBody, firstBody]
+  | cons c cs ih =>
+    simp only [lastBody, firstBody]
+    cases hl : lastBody cs with
+    | some x =>
+      have : firstBody cs ≠ none := fun h => by rw [← ih] at h; simp [hl] at h
+      cases hb : bodyOf c <;> simp [this]
+    | none =>
+      have : firstBody cs = none := ih.mp hl
+      cases hb : bodyOf c <;> simp [this]
+
+theorem foldCalls_some_of_inDomain (cs : List Call) : ∀ r : Req, inDomain cs = true → ∃ r', foldCalls r cs = some r' := by
+  induction cs with
+  | nil => intro r _; exact ⟨r, rfl⟩
+  | cons c cs ih =>
+    intro r h
+    simp only [inDomain, List.all_cons, Bool.and_eq_true] at h
+    obtain ⟨hc, hcs⟩ := h
+    have : ∃ r1, applyCall r c = some r1 := by
+      cases c <;> simp only [applyCall] <;> (try exact ⟨_, rfl⟩)
+      simp only at hc
+      simp [hc]
+    obtain ⟨r1, h1⟩ := this
+    obtain ⟨r', h'⟩ := ih r1 (by simpa [inDomain] using hcs)
+    exact ⟨r', by simp [foldCalls, h1, h']⟩
+
+theorem foldCalls_none_of_not_inDomain (cs : List Call) : ∀ r : Req, inDomain cs = false → foldCalls r cs = none := by
+  induction cs with
+  | nil => intro r h; simp [inDomain] at h
+  | cons c cs ih =>
+    intro r h
+    simp only [foldCalls]
+    cases h1 : applyCall r c with
+    | none => rfl
+    | some r1 =>
+      simp only
+      apply ih
+      simp only [inDomain, List.all_cons, Bool.and_eq_false_iff] at h
+      rcases h with h | h
+      · exfalso
+        cases c <;> simp only [applyCall] at h1 <;> simp only at h <;> (try simp at h)
+        simp only [Option.ite_none_right_eq_some, Bool.and_eq_true, List.all_eq_true] at h1
+        obtain ⟨x, hx, hx'⟩ := h h1.1.1
+        have := h1.1.2 x hx
+        simp [hx'] at this
+      · simpa [inDomain] using h
+
+theorem documentedMime_eq (k : BodyKind) : documentedMime k = k.mime := by cases k <;> decide
+
+
+/-! ### C15: appending the shell's headers -/
+
+theorem valuesFor_cons (p : Bytes × Bytes) (hs : List (Bytes × Bytes)) (n : Bytes) :
+    valuesFor (p :: hs) n = (if lower p.1 = n then [p.2] else []) ++ valuesFor hs n := by
+  unfold valuesFor
+  by_cases h : lower p.1 = n <;> simp [h]
+
+theorem appendAll_spec (hs : List (Bytes × Bytes)) : ∀ h h' : Headers, appendAll h hs = some h' →
+    (KeysLower h → KeysLower h') ∧ ∀ n, h'.values n = h.values n ++ valuesFor hs n := by
+  induction hs with
+  | nil =>
+    intro h h' hh
+    simp only [appendAll] at hh; injection hh with hh; subst hh
+    simp [valuesFor]
+  | cons p hs ih =>
+    intro h h' hh
+    obtain ⟨n0, v0⟩ := p
+    simp only [appendAll] at hh
+    split at hh
+    · obtain ⟨hk, hv⟩ := ih _ h' hh
+      refine ⟨fun hl => hk (keysLower_append _ _ _ hl (lower_idem n0)), ?_⟩
+      intro n
+      rw [hv n, values_append, valuesFor_cons, List.append_assoc]
+    · cases hh
+
+theorem appendAll_some_of_ascii (hs : List (Bytes × Bytes)) : ∀ h : Headers, asciiHeaders hs = true →
+    ∃ h', appendAll h hs = some h' := by
+  induction hs with
+  | nil => intro h _; exact ⟨h, rfl⟩
+  | cons p hs ih =>
+    intro h ha
+    obtain ⟨n0, v0⟩ := p
+    simp only [asciiHeaders, List.all_cons, Bool.and_eq_true] at ha
+    obtain ⟨⟨h1, h2⟩, h3⟩ := ha
+    obtain ⟨h', hh⟩ := ih (h.append (lower n0) [v0]) (by simpa [asciiHeaders] using h3)
+    exact ⟨h', by simp [appendAll, h1, h2, hh]⟩
+
+theorem appendAll_none_of_not_ascii (hs : List (Bytes × Bytes)) : ∀ h : Headers, asciiHeaders hs = false →
+    appendAll h hs = none := by
+  induction hs with
+  | nil => intro h ha; simp [asciiHeaders] at ha
+  | cons p hs ih =>
+    intro h ha
+    obtain ⟨n0, v0⟩ := p
+    simp only [appendAll]
+    split
+    · apply ih
+      rename_i hc
+      simp only [asciiHeaders, List.all_cons, Bool.and_eq_false_iff] at ha
+      rcases ha with ha | ha
+      · exfalso; simp only [Bool.and_eq_true] at hc; rcases ha with ha | ha <;> simp [ha] at hc
+      · simpa [asciiHeaders] using ha
+    · rfl
+
+/-- every status http-types knows lies in 100..=511 (table of 59 rows, by evaluation) -/
+theorem validStatus_range (s : Nat) (h : isValidStatus s = true) : 100 ≤ s ∧ s ≤ 511 := by
+  have hall : ∀ x ∈ validStatus, 100 ≤ x ∧ x ≤ 511 := by decide
+  unfold isValidStatus at h
+  exact hall s (by simpa using h)
+
+/-- the two byte order marks exclude each other -/
+theorem bom8_not_bom16 (b : Bytes) (h : bom8 b = true) : bom16 b = false := by
+  unfold bom8 at h
+  split at h
+  · simp [bom16]
+  · cases h
+
+
+/-! ### C15: helper facts about the conversion, the expectations and the oracle -/
+
+/-- the headers a valid response with ASCII headers reaches the app with: the shell's, name by name in order, plus
+    one leading `content-type: application/octet-stream` -/
+theorem toHttpTypes_valid (r : HttpResponse) (hv : isValidStatus r.status = true)
+    (ha : asciiHeaders r.headers = true) :
+    ∃ h, toHttpTypes r = .ok h ∧
+      ∀ n, valuesFor h.flat n = (if n = ctName then [octetStream] else []) ++ valuesFor r.headers n := by
+  obtain ⟨h, hh⟩ := appendAll_some_of_ascii r.headers (Headers.insert [] ctName [octetStream]) ha
+  obtain ⟨hk, hval⟩ := appendAll_spec r.headers _ h hh
+  have hkl : KeysLower h := hk (keysLower_insert [] ctName _ (by intro e he; cases he) lower_ctName)
+  refine ⟨h, by simp [toHttpTypes, hv, hh], ?_⟩
+  intro n
+  rw [valuesFor_flat h hkl, hval n, values_insert]
+  by_cases hn : n = ctName
+  · subst hn; simp
+  · have : ¬ ctName = n := fun h => hn h.symm
+    simp [hn, this, Headers.values]
+
+/-- an expectation never panics and never changes status or headers -/
+theorem applyExpect_cases (e : Expect) (f : Facts) (s : Nat) (hs : List (Bytes × Bytes)) (body : Bytes) :
+    (∃ b, applyExpect e f s hs body = .success s hs b) ∨ (∃ err, applyExpect e f s hs body = .error err) := by
+  cases e
+  · exact .inl ⟨body, rfl⟩
+  · simp only [applyExpect]
+    cases decodeString f body with
+    | ok x => exact .inl ⟨x, rfl⟩
+    | error x => exact .inr ⟨x, rfl⟩
+  · simp only [applyExpect]
+    cases f.jd with
+    | ok x => exact .inl ⟨x, rfl⟩
+    | fail x => exact .inr ⟨_, rfl⟩
+    | na => exact .inr ⟨_, rfl⟩
+
+theorem ascii_octetStream : ascii "application/octet-stream" = octetStream := by decide
+
+theorem sameHeadersModInjection_of (given obs : List (Bytes × Bytes))
+    (h : ∀ n, valuesFor obs n = (if n = ctName then [octetStream] else []) ++ valuesFor given n) :
+    sameHeadersModInjection given obs = true := by
+  unfold sameHeadersModInjection
+  rw [List.all_eq_true]
+  intro n _
+  rw [h n, ascii_octetStream]
+  by_cases hn : n = ctName <;> simp [hn]
+
+theorem sameHeaders_false_of_injected (given obs : List (Bytes × Bytes))
+    (h : valuesFor obs ctName = octetStream :: valuesFor given ctName) : sameHeaders given obs = false := by
+  unfold sameHeaders
+  rw [List.all_eq_false]
+  refine ⟨ctName, by simp [headerNames], ?_⟩
+  rw [h]
+  have : octetStream :: valuesFor given ctName ≠ valuesFor given ctName := by
+    intro heq
+    have := congrArg List.length heq
+    simp at this
+  simp [this]
+
+theorem okRespWith_error (h1 h2 : List (Bytes × Bytes) → List (Bytes × Bytes) → Bool) (res : HttpResult)
+    (e : Expect) (f : Facts) (err : HttpError) :
+    okRespWith h1 res e f (.error err) = okRespWith h2 res e f (.error err) := by
+  unfold okRespWith
+  cases res with
+  | err x => rfl
+  | ok r =>
+    simp only
+    split
+    · rfl
+    · split
+      · rcases expectedDecoded e f r.body with _ | _ | _ <;> rfl
+      · rfl
+
+theorem okRespWith_panic (h1 : List (Bytes × Bytes) → List (Bytes × Bytes) → Bool) (r : HttpResponse)
+    (e : Expect) (f : Facts) (c : PanicClass) : okRespWith h1 (.ok r) e f (.panic c) = false := by
+  unfold okRespWith
+  simp only
+  split
+  · rfl
+  · split <;> rfl
+
+theorem okRespWith_success_false (hdrs : List (Bytes × Bytes) → List (Bytes × Bytes) → Bool) (r : HttpResponse)
+    (e : Expect) (f : Facts) (s : Nat) (hs : List (Bytes × Bytes)) (b : Bytes)
+    (h1 : 100 ≤ r.status) (h2 : r.status < 400) (hh : hdrs r.headers hs = false) :
+    okRespWith hdrs (.ok r) e f (.success s hs b) = false := by
+  have hn : ¬ (400 ≤ r.status) := by omega
+  simp only [okRespWith, hn, h1, h2, decide_true, decide_false, Bool.false_and, Bool.and_self,
+    Bool.false_eq_true, if_false, if_true]
+  rcases expectedDecoded e f r.body with _ | _ | _ <;> simp [hh]
+
 end Lemmas.Http
